@@ -230,7 +230,7 @@ def run(case, ctx):
     res = sut.generate(doc, cfg=case.get("cfg") or {}, meta=meta, out=out_dir, overwrite=out_dir is not None)
     try:
         if res.exc is not None:
-            ctx.skip("generator_crashed")  # C06's verdict
+            ctx.violation("generator.completes", res.exc_site, repr(res.exc)[:300])   # a valid document: the crash itself breaks the property
             ctx.label("crash:" + res.exc_site["exc"])
             return
         if not res.accepted:
